@@ -290,6 +290,9 @@ class Eval:
         if path == "core::num::<impl usize>::overflowing_mul":
             prod = args[0] * args[1]
             return Tup([prod, Cond("atom", atom="ovf(%r)" % (prod,))])
+        if path in ("core::num::<impl usize>::overflowing_add", "core::num::<impl usize>::overflowing_sub") and all(isinstance(a, Poly) for a in args):
+            res_ = args[0] + args[1] if name == "overflowing_add" else args[0] - args[1]
+            return Tup([res_, Cond("atom", atom="ovf(%r)" % (res_,))])
         if path == "core::num::<impl usize>::saturating_mul" and all(isinstance(a, Poly) for a in args):
             # n.saturating_mul(step): the product, or usize::MAX when it overflows - and usize::MAX is not below any slice length
             prod = args[0] * args[1]
